@@ -12,6 +12,7 @@ LEVEL = 'exploration'
 RULE = ('case = (value tree over built-ins and pretty_call objects with comment()/trailing_comment() wrappers on any '
         'nodes - leaf, container, dict key, dict value, set element, call argument, top level, sole tuple element - '
         'comment text over {a, bb, space, newline, #, quotes, brackets, comma, colon, backslash, non-ASCII} incl. blank '
+        '[random cases also draw a depth limit, applied to both the commented and the stripped value: syntax tree only] '
         'and whitespace-only lines, width, indent). Exhaustive: all placements of <= 2 comments on all trees with <= 3 '
         '(quick) / 4 (thorough) nodes x 4 texts x 4 widths; random: Hypothesis trees x texts x widths 1..79. Oracle: no '
         'exception, no warning other than the documented "does not support rendering trailing comments"; AST of the '
@@ -106,6 +107,10 @@ def fixed_cases():
     yield {'v': ['dict', [[['cmt', 'key c', ['str', 'k']], ['cmt', 'val c1 c2', ['list', [['cmt', 'in', ['int', 1]]]]]]]],
            'width': 20, 'ribbon': 20, 'indent': 2}
     yield {'v': ['tcmt', 'tr ail', ['cmt', 'top', ['list', [['tcmt', 'nope', ['int', 1]]]]]], 'width': 30, 'ribbon': 30, 'indent': 4}
+    deep = ['dict', [[['str', 'a'], ['cmt', 'a comment long enough to go above the value', ['list', [['int', 1], ['list', [['int', 2], ['list', [['int', 3]]]]]]]]]]]
+    for d in (1, 2, 3, 4):
+        for w in (20, 79):
+            yield {'v': deep, 'width': w, 'ribbon': w, 'indent': 4, 'depth': d}
 
 
 def decorate(tree, decos):
@@ -144,6 +149,7 @@ def strategy(tier):
         'v': st.tuples(tree, decos).map(lambda p: decorate(p[0], p[1])),
         'width': st.one_of(st.integers(1, 79), st.sampled_from([1, 2, 79])),
         'ribbon': st.one_of(st.just(None), st.integers(1, 79)), 'indent': st.sampled_from([1, 2, 4, 8]),
+        'depth': st.sampled_from([None, None, 1, 2, 3]),
     }).map(lambda c: dict(c, ribbon=c['ribbon'] or c['width']))
 
 
@@ -239,11 +245,17 @@ def has_set(r):
 def oracle(case):
     r = values.dedupe(case['v'])
     cfg = {'width': case['width'], 'ribbon_width': case['ribbon'], 'indent': case['indent']}
+    if case.get('depth') is not None:
+        cfg['depth'] = case['depth']      # the same limit for the commented and the stripped value
     v = values.build(r)
     plain_r = values.strip_comments(r)
     plain = values.build(plain_r)
     if n_entries(v) != n_entries(plain):
         return core.skip('key-collision')
+    if case.get('depth') is not None and _commented_str_key(r):
+        # a str/bytes dict key is printed in the dict's own context on purpose (it is not a nesting level);
+        # a commented one goes through the generic path - whether it counts as a level is left open (C11 tolerance 1)
+        return core.skip('depth+commented-str-key')
     words, dropped = [], []
     reference_words(r, words, dropped)
     p = values.pp(v, **cfg)
@@ -252,7 +264,7 @@ def oracle(case):
     if p.fallback_warnings():
         return core.viol('degraded-to-repr', p.fallback_warnings()[0][:500])
     # (a commented dict value is rendered twice, so the warning may repeat: only presence is judged)
-    if dropped and not p.warnings:
+    if dropped and not p.warnings and case.get('depth') is None:
         return core.viol('trailing-comment-lost-silently', 'no warning for %d trailing comments on nodes whose printer does not take them\n%s' % (len(dropped), p.text[:400]))
     q = values.pp(plain, **cfg)
     if q.exc is not None or q.fallback_warnings():
@@ -264,6 +276,9 @@ def oracle(case):
     d2 = canon_dump(q.text)
     if d1 != d2:
         return core.viol('syntax-tree-changed', 'commented output\n%s\nuncommented output\n%s' % (p.text[:700], q.text[:400]))
+    if case.get('depth') is not None:
+        # comments below the cut are cut off with their values: only the syntax tree is compared
+        return core.ok(_nontrivial(r, top=True), ['depth-limited'])
     try:
         got = comment_tokens(p.text)
     except (tokenize.TokenError, SyntaxError) as e:
@@ -289,6 +304,29 @@ def oracle(case):
     if any('\n' in x for x in _texts(r)):
         labels.append('multiline-text')
     return core.ok(nontrivial, labels)
+
+
+def _commented_str_key(r):
+    t = r[0]
+    if t in ('cmt', 'tcmt'):
+        return _commented_str_key(r[2])
+    if t in ('list', 'tuple', 'set', 'fset'):
+        return any(_commented_str_key(x) for x in r[1])
+    if t == 'dict':
+        for k, v in r[1]:
+            kk = k
+            wrapped = False
+            while kk[0] in ('cmt', 'tcmt'):
+                kk = kk[2]
+                wrapped = True
+            if wrapped and kk[0] in ('str', 'bytes'):
+                return True
+            if _commented_str_key(k) or _commented_str_key(v):
+                return True
+        return False
+    if t == 'call':
+        return any(_commented_str_key(a) for a in r[2]) or any(_commented_str_key(a) for _, a in r[3])
+    return False
 
 
 def _texts(r):
